@@ -36,6 +36,10 @@ type C19Plan struct {
 	// HeldRows: the plain-rows output is held by reference while the sorter is reset and used for another
 	// table: the rows handed out earlier must not change
 	HeldRows bool `json:"held_rows,omitempty"`
+	// Synth (instead of Table): 256-800 distinct keys; DupEdge repeats the lines whose keys end or start a block in
+	// key order (positions 254, 255, 509, 510, ...), so a duplicate is the first row met after a full block
+	Synth   *SynthSpec `json:"synth,omitempty"`
+	DupEdge bool       `json:"dup_edge,omitempty"`
 }
 
 type SpillCut struct {
@@ -132,6 +136,11 @@ func init() {
 			} else if p.FsizeLimit == 0 && p.SpillCut == nil && p.Reuse == "" && r.Chance(0.1) {
 				p.HeldRows = true
 			}
+			if r.Chance(0.06) {
+				s := SynthSpec{N: Pick(r, []int{255, 256, 257, 300, 510, 511, 600, 800}), NCols: r.Range(2, 4), Seed: r.Uint64()}
+				p = C19Plan{Synth: &s, DupEdge: r.Chance(0.8), RunSize: Pick(r, []uint64{0, 0, 64, 4096, 1 << 20}), Feed: Pick(r, []string{"csv", "rows", "bare"})}
+				return p
+			}
 			if len(tb.PK) > 0 && r.Chance(0.4) {
 				pk, _ := pkIndices(tb.Cols, tb.PK)
 				for j := range tb.Cols {
@@ -190,6 +199,9 @@ func execC19(t *testing.T, raw json.RawMessage, res *Result) {
 		res.Invalid("plan: %v", err)
 		return
 	}
+	if p.Synth != nil {
+		p.Table = TableSpec{Cols: []string{"x"}}
+	}
 	if err := p.Table.Validate(); err != nil {
 		res.Invalid("plan: %v", err)
 		return
@@ -204,6 +216,17 @@ func execC19(t *testing.T, raw json.RawMessage, res *Result) {
 	pkNames := make([]string, len(p.Table.PK))
 	for i, s := range p.Table.PK {
 		pkNames[i] = ToBytes(s)
+	}
+	if p.Synth != nil {
+		if p.Synth.N < 0 || p.Synth.N > 3000 || p.Synth.NCols < 1 || p.Synth.NCols > 8 {
+			res.Invalid("synth")
+			return
+		}
+		cols, pkNames, rows = p.Synth.Build()
+		if p.DupEdge {
+			rows = withEdgeDuplicates(cols, pkNames, rows)
+			res.probe("duplicates_at_block_edges", 1)
+		}
 	}
 	if p.Feed == "csv" {
 		var err error
@@ -333,6 +356,25 @@ func execC19(t *testing.T, raw json.RawMessage, res *Result) {
 		if b.Offset != off || b.RowsCount != len(br) || len(br) == 0 || len(br) > 255 {
 			res.Violate("blocks-shape", "block offset %d (want %d), RowsCount %d, decoded %d rows", b.Offset, off, b.RowsCount, len(br))
 			return
+		}
+		if len(pk) > 0 {
+			// a block is announced under the key of its first row (ingest stores it as the table-index entry)
+			first := make([]string, len(pk))
+			for x, j := range pk {
+				at := j
+				for g := range removed {
+					if g < j {
+						at--
+					}
+				}
+				if at < len(br[0]) {
+					first[x] = br[0][at]
+				}
+			}
+			if !rowsEqual(b.PK, first) {
+				res.Violate("blocks-key-wrong", "block %d is announced under key %s but its first row has key %s", off, clip(b.PK), clip(first))
+				return
+			}
 		}
 		gotB = append(gotB, br...)
 		off++
